@@ -23,9 +23,8 @@
 
    The proved set is a set of blocks: discharge_assertions decides per block (all the
    assertions of a block dominated by a block whose refined assumption is bottom).
-   minimize() is the identity for interval_domain.  The initial assumption map is empty and
-   the analysis starts at the CFG entry (the one-entry run() of the C++, as the harness
-   calls it). *)
+   minimize() is the identity for interval_domain.  The initial assumption map is empty (as
+   the harness calls run()). *)
 From Coq Require Import ZArith List Bool Arith.
 From CrabV Require Import Base.ZInf Scalar.Itv Ir.Syntax Ir.Cfg Dom.ItvEnv Dom.ItvDomain Fix.Wto Fix.Engine
      Ana.Transformer Ana.FwdItv Ana.Backward Ana.BackwardCheck Ana.BwdItv Ana.Checker.
@@ -50,7 +49,7 @@ Definition asserts_reach_exit (p : prog) (wrev : wto) : bool :=
 Definition p_graph_cut (p : prog) (u : nat) : graph :=
   map (fun q => if Nat.eqb q u then [] else p_succs p q) (all_blocks p).
 
-(* u strictly dominates v, v reachable from the entry (w = ordering of the CFG from the entry) *)
+(* u strictly dominates v, v reachable from the entry (w = an ordering of the CFG built from the entry) *)
 Definition sdom (p : prog) (w : wto) (entry u v : nat) : bool :=
   negb (Nat.eqb u v) && wto_mem v w &&
   match build (p_graph_cut p u) entry with
@@ -126,11 +125,16 @@ Record fbout := mkFbOut {
   fb_inv : nat -> env;              (* m_pre_invariants, as the checker reads them *)
   fb_proved : list nat }.           (* blocks whose assertions are in m_proved_assertions *)
 
-Definition fb_run (p : prog) (entry : nat) (exit_block : option nat) (delay desc fuel : nat) (fresh : var)
+(* e0 = entry block of the CFG (the forward ordering is built from it); entry = block where
+   the analysis starts (run(entry, ...): e0 itself for the one-entry run()).  The dominator tree
+   is rooted at the block where the executions start (fixes/fwdbwd-2.diff; the two coincide for
+   the one-entry run()).  An analysis entry outside the ordering is not modelled (None). *)
+Definition fb_run (p : prog) (e0 entry : nat) (exit_block : option nat) (delay desc fuel : nat) (fresh : var)
            (use_refined : bool) (maxref : nat) (init : env) : option fbout :=
-  match build (p_graph p) entry with
+  match build (p_graph p) e0 with
   | None => None
   | Some w =>
+    if negb (wto_mem entry w) then None else
     let forward_only :=
       match fwd_run p w entry delay desc false (fun _ => None) fuel init with
       | None => None
@@ -145,11 +149,15 @@ Definition fb_run (p : prog) (entry : nat) (exit_block : option nat) (delay desc
         if negb (asserts_reach_exit p wrev) then forward_only
         else if no_asserts p then forward_only
         else
-          match fb_loop p w wrev entry ex delay desc fuel fresh init maxref None with
+          match build (p_graph p) entry with                (* the blocks reachable from entry *)
           | None => None
-          | Some r =>
-            Some (mkFbOut (if use_refined then r_last r else r_first r)
-                          (match r_ref r with Some t => discharge p w entry t | None => [] end))
+          | Some wd =>
+            match fb_loop p w wrev entry ex delay desc fuel fresh init maxref None with
+            | None => None
+            | Some r =>
+              Some (mkFbOut (if use_refined then r_last r else r_first r)
+                            (match r_ref r with Some t => discharge p wd entry t | None => [] end))
+            end
           end
       end
     end
@@ -177,9 +185,9 @@ Definition mem_nat (x : nat) (l : list nat) : bool := existsb (Nat.eqb x) l.
 Definition fb_verdicts (p : prog) (o : fbout) : list (nat * verdict) :=
   concat (map (fun n => fb_check_block (mem_nat n (fb_proved o)) (p_block p n) (fb_inv o n)) (all_blocks p)).
 
-Definition fb_analyze (p : prog) (entry : nat) (exit_block : option nat) (delay desc fuel : nat) (fresh : var)
+Definition fb_analyze (p : prog) (e0 entry : nat) (exit_block : option nat) (delay desc fuel : nat) (fresh : var)
            (use_refined : bool) (maxref : nat) (init : env) : option (list (nat * verdict)) :=
-  match fb_run p entry exit_block delay desc fuel fresh use_refined maxref init with
+  match fb_run p e0 entry exit_block delay desc fuel fresh use_refined maxref init with
   | None => None
   | Some o => Some (fb_verdicts p o)
   end.
